@@ -13,7 +13,7 @@ import (
 
 func init() {
 	prop("C16",
-		"(a) the cursor snapshot precedes the barrier in the runner's output stream and reads / snapshots share one goroutine (C01.d, C01.e, C04.b); (b) a Kinesis split is handed out only if it is unassigned and none of its parents is still known; (c) the split tracker's maps and last-assigned id are accessed under its mutex; (d) restoring splitter state does not dereference nil and the shard (de)serialisers cover every field; (e) shards are recorded as assigned after, and only for, the assignment that was sent, and a restored shard reaches the assignment once; (f) split assignment and splitter start errors are not dropped (C15.e).",
+		"(a) the cursor snapshot precedes the barrier in the runner's output stream and reads / snapshots share one goroutine (C01.d, C01.e, C04.b); (b) a Kinesis split is handed out only if it is unassigned and none of its parents is still known; (c) the split tracker's maps and last-assigned id are accessed under its mutex; (d) restoring splitter state does not dereference nil and the shard (de)serialisers cover every field; (e) shards are recorded as assigned after, and only for, the assignment that was sent, and a restored shard reaches the assignment once; (f) split assignment and splitter start errors are not dropped (C15.e); (h) the last-assigned position, which is checkpointed and is where shard listing resumes, moves only when shards are handed out or a checkpoint is loaded.",
 		"'assigned to exactly one runner' as a uniqueness property of runtime collections beyond the structural sources of duplication named above; the Kinesis API's behaviour.")
 
 	register(&Obligation{ID: "C16.b", Props: []string{"C16"}, Template: "guard",
